@@ -395,6 +395,27 @@ pub fn biff_records(s: &[u8]) -> Vec<(u16, usize, usize)> {
 
 pub fn biff_atoms(s: &[u8], per_key: usize, full: bool, emit: &mut dyn FnMut(String, String, Vec<u8>)) {
     let recs = biff_records(s);
+    // defined names (Lbl): the reference formula cut after k bytes, the cce field saying so
+    for (t, at, l) in recs.iter().filter(|r| r.0 == 0x0018).take(per_key.max(2)) {
+        let _ = t;
+        if *l < 15 {
+            continue;
+        }
+        let d = &s[*at + 4..*at + 4 + *l];
+        let cce = u16::from_le_bytes([d[4], d[5]]) as usize;
+        if cce == 0 || cce > *l {
+            continue;
+        }
+        for k in 1..cce.min(12) {
+            let mut nd = d[..*l - cce].to_vec();
+            nd.extend_from_slice(&d[*l - cce..*l - cce + k]);
+            nd[4..6].copy_from_slice(&(k as u16).to_le_bytes());
+            let mut r = 0x0018u16.to_le_bytes().to_vec();
+            r.extend_from_slice(&(nd.len() as u16).to_le_bytes());
+            r.extend_from_slice(&nd);
+            emit(format!("biff:lbl_rgce_truncated:{}", k), String::new(), splice(s, &(*at..*at + 4 + *l), &r));
+        }
+    }
     // the SST (with its CONTINUE records) replaced by a table of three strings whose first string
     // ends `slack` bytes before the end of the SST record, followed by a CONTINUE record of
     // `tiny` bytes and one with the rest
